@@ -1,5 +1,7 @@
 /- C08 — property theorems. -/
 import TornadoModel.C08.Agree
+import TornadoModel.C08.Strict
+import TornadoModel.C08.Grammar
 import TornadoModel.C08.StreamLemmas
 namespace TornadoModel.C08
 open TornadoModel.C06
@@ -240,5 +242,144 @@ example : streamed { wCfg with maxBody := 8 } [bStream] true [[.out 5 true, .out
 example : streamed { wCfg with maxBody := 4 } [bStream] true [[.out 5 true, .out 4 false]] = [] := by decide
 example : streamed { wCfg with maxBody := 3, decompress := false } [bStream.take 63, bStream.drop 63] true [] = [1, 2] := by
   decide
+
+/-! ### the strict reader whose framing decision is stated independently of the model (`Spec.strictReadAll`) -/
+
+/-- the full statement against the independent strict reader, `decompress_response` off (so that the recorded gzip
+    leniency is out of the picture) -/
+def client_agrees_with_strict_full : Prop :=
+  ∀ (cfg : Cfg) (Z : Bytes → GzRes) (s : Bytes) (eof : Bool), cfg.decompress = false →
+    (run cfg Z [s] eof).toSpec = Spec.strictReadAll cfg Z s eof
+
+/-- **client_agrees_with_strict_partial**: `decompress_response` off; if the Content-Length list of the final
+    response (when it has one) is separated by comma + SP/HTAB only (`Spec.clOws`, decidable), the fetch returns
+    exactly what the independent strict reader extracts and fails exactly when it rejects. -/
+theorem client_agrees_with_strict_partial (cfg : Cfg) (Z : Bytes → GzRes) (s : Bytes) (eof : Bool)
+    (hd : cfg.decompress = false)
+    (hs : ∀ h ∈ Spec.finalHeaders cfg (s.length + 1) s, Spec.clOws h = true) :
+    (run cfg Z [s] eof).toSpec = Spec.strictReadAll cfg Z s eof := by
+  rw [strictReadAll_eq cfg Z s eof hs]
+  exact client_agrees_with_spec cfg Z s eof hd
+
+/-- **client_agrees_with_strict_gz_partial**: the same with `decompress_response` on, under the two explicit side
+    conditions (`ZOk`: no data behind the first gzip member; `Spec.clOws`). -/
+theorem client_agrees_with_strict_gz_partial (cfg : Cfg) (Z : Bytes → GzRes) (s : Bytes) (eof : Bool)
+    (h2 : ∀ raw ∈ rawGzBody cfg [s] eof, ZOk (Z raw))
+    (hs : ∀ h ∈ Spec.finalHeaders cfg (s.length + 1) s, Spec.clOws h = true) :
+    (run cfg Z [s] eof).toSpec = Spec.strictReadAll cfg Z s eof := by
+  rw [strictReadAll_eq cfg Z s eof hs]
+  exact client_agrees_with_spec_gz cfg Z s eof h2
+
+/-- the witness: a Content-Length list whose second member is preceded by U+00A0 (Python's `\s` in `re.split(r",\s*")`) -/
+def wNbsp : Bytes := "HTTP/1.1 200 OK\r\nContent-Length: 1,\xa01\r\n\r\nA".toList.map Char.toNat
+def wCfgPlain : Cfg := { isHead := false, decompress := false, maxBody := 100 }
+
+theorem witness_nbsp_model : run wCfgPlain wZ [wNbsp] true =
+    .ok 200 [79, 75] [("Content-Length".toList.map Char.toNat, [49])] [65] := by decide
+
+theorem witness_nbsp_strict : Spec.strictReadAll wCfgPlain wZ wNbsp true = none := by decide
+
+/-- **cl_list_space_refuted**: the code as it is accepts `Content-Length: 1,<NBSP>1` (known finding
+    `cl-list-space`), which the strict reader rejects: the side condition `Spec.clOws` is necessary. -/
+theorem cl_list_space_refuted : ¬ client_agrees_with_strict_full := by
+  intro h
+  have := h wCfgPlain wZ wNbsp true rfl
+  rw [witness_nbsp_model, witness_nbsp_strict] at this
+  simp [Res.toSpec] at this
+
+example : (∀ h ∈ Spec.finalHeaders wCfgPlain (wNbsp.length + 1) wNbsp, Spec.clOws h = true) → False := by decide
+
+/-- non-vacuity of the side condition: an ordinary list `1, 1` satisfies it and is read as 1 -/
+def wList : Bytes := "HTTP/1.1 200 OK\r\nContent-Length: 1, 1\r\n\r\nA".toList.map Char.toNat
+example : (∀ h ∈ Spec.finalHeaders wCfgPlain (wList.length + 1) wList, Spec.clOws h = true) ∧
+    Spec.strictReadAll wCfgPlain wZ wList true =
+      some (.ok 200 [79, 75] [("Content-Length".toList.map Char.toNat, [49])] [65]) := by decide
+
+/-! ### the framing corner cases, stated on the independent rule (`Spec.framing` is what `strictReadAll` frames by;
+    `readBody_eq_strict` / `strict_accepts_sound` tie `_read_body` to it) -/
+
+/-- Content-Length together with Transfer-Encoding: rejected, whatever the values -/
+theorem framing_cl_te_rejected (code : Nat) (cl te : Str) (mb : Nat) :
+    Spec.framing code (some cl) (some te) mb = none := rfl
+
+/-- 204: accepted only without Transfer-Encoding and with no Content-Length or one that reads as 0; never a body -/
+theorem framing_204 (cl te : Option Str) (mb : Nat) (fr : Framing)
+    (h : Spec.framing 204 cl te mb = some fr) :
+    fr = .fixed 0 ∧ te = none ∧ (cl = none ∨ ∃ v, cl = some v ∧ (Spec.clMember v).bind parseDec = some 0) := by
+  unfold Spec.framing at h
+  cases te with
+  | some t => cases cl <;> simp at h
+  | none =>
+    cases cl with
+    | none => simp at h; exact ⟨h.symm, rfl, Or.inl rfl⟩
+    | some v =>
+      simp only at h
+      cases hb : (Spec.clMember v).bind parseDec with
+      | none => rw [hb] at h; cases h
+      | some n =>
+        rw [hb] at h
+        simp only at h
+        split at h
+        · cases h
+        · simp only [if_true] at h
+          split at h
+          · rename_i h0; subst h0; cases h; exact ⟨rfl, rfl, Or.inr ⟨v, rfl, hb⟩⟩
+          · cases h
+
+/-- neither field: a 204 has an empty body, everything else runs to the close of the connection -/
+theorem framing_neither (code : Nat) (mb : Nat) :
+    Spec.framing code none none mb = some (if code = 204 then .fixed 0 else .close) := by
+  simp only [Spec.framing]; split <;> rfl
+
+/-- the model's decision on the same corner cases, unconditionally: both fields ⇒ `_read_body` raises -/
+theorem readBody_cl_te_rejected (code : Nat) (h : Headers) (mb : Nat)
+    (hcl : contains h sContentLength = true) (hte : contains h sTransferEncoding = true) :
+    readBody code h mb = none := by
+  cases hr : readBody code h mb with
+  | none => rfl
+  | some q =>
+    exfalso
+    obtain ⟨h', fr⟩ := q
+    unfold readBody at hr
+    cases hc : clStep h mb with
+    | none => rw [hc] at hr; cases hr
+    | some r =>
+      obtain ⟨H, cl⟩ := r
+      rw [hc] at hr
+      simp only at hr
+      have hH : contains H sContentLength = true ∧ contains H sTransferEncoding = true := by
+        unfold clStep at hc
+        rw [if_pos hcl] at hc
+        cases hgi : getItem h sContentLength with
+        | error _ => rw [hgi] at hc; cases hc
+        | ok vh =>
+          obtain ⟨v, h1⟩ := vh
+          have hal := getItem_asList h h1 _ v hgi
+          rw [hgi] at hc
+          simp only at hc
+          split at hc
+          · cases hc
+          · rename_i h2 v2 hrr
+            split at hc
+            · cases hc
+            · split at hc
+              · cases hc
+              · cases hc
+                split at hrr
+                · split at hrr
+                  · cases hrr
+                  · split at hrr
+                    · cases hrr
+                      exact ⟨contains_setItem_same _ _ _, by
+                        rw [(field_setItem_other h1 _ _ _ nTE_ne_nCL).2, contains_congr hal]; exact hte⟩
+                    · cases hrr
+                · cases hrr
+                  exact ⟨by rw [contains_congr hal]; exact hcl, by rw [contains_congr hal]; exact hte⟩
+      simp [chStep, hH.1, hH.2] at hr
+
+example : Spec.framing 204 (some [53]) none 100 = none := by decide
+example : Spec.framing 200 (some [53, 44, 32, 53]) none 100 = some (.fixed 5) := by decide
+example : Spec.framing 200 (some [53, 44, 160, 53]) none 100 = none := by decide
+example : Spec.framing 200 none (some ("Chunked".toList.map Char.toNat)) 100 = some .chunked := by decide
 
 end TornadoModel.C08
